@@ -287,6 +287,11 @@ func runClean(_ []string) {
 			continue
 		}
 		for _, entry := range entries {
+			if entry.IsDir() {
+				// Counter files and reports are regular files. os.Remove would
+				// delete an empty directory whose name happens to end in .json.
+				continue
+			}
 			// TODO: use slices.ContainsFunc once it is available in all supported Go
 			// versions.
 			remove := false
